@@ -159,10 +159,21 @@ pub struct Watch {
     pub done: AtomicBool,
 }
 
-/// Run `work(item, acc)` for every item in `0..n_items` on `jobs` threads.
-/// Items are handed out dynamically; all accumulation is commutative, so the
-/// merged result does not depend on `jobs`.
-pub fn run_parallel<F>(n_items: u64, jobs: usize, stall_secs: u64, work: F) -> Acc
+/// Run `work(item, acc)` for every item in `0..n_items` on `jobs` threads and hand the merged
+/// accumulator to `fin`, whose result is the exit code.  Items are handed out dynamically; all
+/// accumulation is commutative, so the merged result does not depend on `jobs`.
+///
+/// Watchdog: a worker that makes no progress for `stall_secs` seconds means that library code does
+/// not terminate on some input.  The other workers are allowed to finish; then `fin` runs on what
+/// they accumulated (so that violations found elsewhere are still reported, exit 1) and the process
+/// ends with exit code 2 (harness error) otherwise — the non-terminating input is printed.
+pub fn run_parallel_then<F>(
+    n_items: u64,
+    jobs: usize,
+    stall_secs: u64,
+    work: F,
+    fin: &(dyn Fn(Acc) -> i32 + Sync),
+) -> i32
 where
     F: Fn(u64, &mut Acc, &dyn Fn(&str)) + Sync,
 {
@@ -173,15 +184,15 @@ where
         current: (0..jobs).map(|_| Mutex::new(String::new())).collect(),
         done: AtomicBool::new(false),
     };
-    let mut total = Acc::default();
+    let accs: Vec<Mutex<Acc>> = (0..jobs).map(|_| Mutex::new(Acc::default())).collect();
     std::thread::scope(|scope| {
         let mut handles = Vec::new();
         for w in 0..jobs {
             let next = &next;
             let work = &work;
             let watch = &watch;
+            let accs = &accs;
             handles.push(scope.spawn(move || {
-                let mut acc = Acc::default();
                 let note = |s: &str| {
                     let mut g = watch.current[w].lock().unwrap();
                     g.clear();
@@ -193,25 +204,28 @@ where
                     if item >= n_items {
                         break;
                     }
-                    work(item, &mut acc, &note);
+                    // the item runs on a private accumulator; only the merge takes the lock, so
+                    // that everything a worker found before it got stuck stays readable
+                    let mut local = Acc::default();
+                    work(item, &mut local, &note);
+                    accs[w].lock().unwrap().merge(local);
                     watch.progress[w].fetch_add(1, Ordering::Relaxed);
                 }
                 watch.progress[w].store(u64::MAX, Ordering::Relaxed);
-                acc
             }));
         }
-        // watchdog: a worker that makes no progress for `stall_secs` means library code does
-        // not terminate on some input (a harness error, exit 2, with the input written out)
         let watch_ref = &watch;
+        let accs_ref = &accs;
         let dog = scope.spawn(move || {
             let mut last: Vec<(u64, u64)> = vec![(0, 0); jobs];
-            let mut secs = 0u64;
+            let mut ticks = 0u64;
             while !watch_ref.done.load(Ordering::Relaxed) {
                 std::thread::sleep(std::time::Duration::from_millis(250));
-                secs += 1;
-                if secs % 4 != 0 {
+                ticks += 1;
+                if ticks % 4 != 0 {
                     continue;
                 }
+                let mut stuck: Vec<usize> = Vec::new();
                 for w in 0..jobs {
                     let p = watch_ref.progress[w].load(Ordering::Relaxed);
                     if p == u64::MAX {
@@ -220,32 +234,65 @@ where
                     if p == last[w].0 {
                         last[w].1 += 1;
                         if last[w].1 >= stall_secs {
-                            let cur = watch_ref.current[w].lock().unwrap().clone();
-                            eprintln!(
-                                "HARNESS-ERROR: no progress for {}s; library code does not \
-                                 terminate on: {}",
-                                stall_secs, cur
-                            );
-                            println!("HARNESS-ERROR: analysis did not terminate on: {}", cur);
-                            std::process::exit(2);
+                            stuck.push(w);
                         }
                     } else {
                         last[w] = (p, 0);
                     }
                 }
+                if stuck.is_empty() {
+                    continue;
+                }
+                // let the healthy workers finish (bounded wait), then finalise without the stuck ones
+                let mut descs = Vec::new();
+                for w in &stuck {
+                    descs.push(watch_ref.current[*w].lock().unwrap().clone());
+                }
+                for d in &descs {
+                    eprintln!(
+                        "HARNESS-ERROR: no progress for {}s; library code does not terminate on: {}",
+                        stall_secs, d
+                    );
+                    println!("HARNESS-ERROR: analysis did not terminate on: {}", d);
+                }
+                let t_wait = std::time::Instant::now();
+                loop {
+                    let healthy_running = (0..jobs).any(|w| {
+                        let p = watch_ref.progress[w].load(Ordering::Relaxed);
+                        p != u64::MAX && p != last[w].0
+                    });
+                    for w in 0..jobs {
+                        last[w].0 = watch_ref.progress[w].load(Ordering::Relaxed);
+                    }
+                    if !healthy_running || t_wait.elapsed().as_secs() > 10 * stall_secs {
+                        break;
+                    }
+                    std::thread::sleep(std::time::Duration::from_secs(2));
+                }
+                let mut total = Acc::default();
+                for w in 0..jobs {
+                    if let Ok(mut g) = accs_ref[w].try_lock() {
+                        total.merge(std::mem::take(&mut *g));
+                    }
+                }
+                total.counters.add("probe.library_nontermination_inputs", descs.len() as u64);
+                let code = fin(total);
+                println!("rtasim: exit {}", if code == 1 { 1 } else { 2 });
+                std::process::exit(if code == 1 { 1 } else { 2 });
             }
         });
         for h in handles {
-            match h.join() {
-                Ok(acc) => total.merge(acc),
-                Err(_) => {
-                    eprintln!("HARNESS-ERROR: worker thread panicked");
-                    std::process::exit(2);
-                }
+            if h.join().is_err() {
+                eprintln!("HARNESS-ERROR: worker thread panicked");
+                std::process::exit(2);
             }
         }
         watch.done.store(true, Ordering::Relaxed);
         let _ = dog.join();
     });
-    total
+    let mut total = Acc::default();
+    for m in accs {
+        total.merge(m.into_inner().unwrap());
+    }
+    fin(total)
 }
